@@ -227,6 +227,21 @@ func TestC16(t *testing.T) {
 			run(h, "time sweep")
 		}
 	}
+	// vocabulary: every signature that ICC.1 (or common practice) defines, in every signature-typed field; a
+	// decoder that "normalises" some of them no longer reports the bytes that are there
+	vocab := []string{"XYZ ", "Lab ", "Luv ", "YCbr", "Yxy ", "RGB ", "GRAY", "HSV ", "HLS ", "CMYK", "CMY ", "2CLR", "3CLR", "4CLR", "5CLR", "6CLR", "7CLR", "8CLR", "9CLR", "ACLR", "BCLR", "CCLR", "DCLR", "ECLR", "FCLR",
+		"MCH1", "MCH2", "MCH3", "MCH4", "MCH5", "MCH6", "MCH7", "MCH8", "MCH9", "MCHA", "MCHB", "MCHC", "MCHD", "MCHE", "MCHF", "nc01", "nc0F",
+		"scnr", "mntr", "prtr", "link", "spac", "abst", "nmcl", "cenc", "mid ", "mlnk", "mvis",
+		"APPL", "MSFT", "SGI ", "SUNW", "TGNT", "*nix", "ADBE", "ACMS", "appl", "CCMS", "UCCM", "UCMS", "EFI ", "FF  ", "EXAC", "HCMM", "argl", "LgoS", "HDM ", "lcms", "KCMS", "MCML", "WCS ", "SIGN", "RGMS", "SICC", "32BT", "zc00",
+		"none", "\x00\x00\x00\x00", "acsp", "desc", "mluc", "    "}
+	for _, off := range []int{4, 12, 16, 20, 40, 48, 52, 80} {
+		for _, v := range vocab {
+			h := base()
+			copy(h[off:], v)
+			run(h, fmt.Sprintf("signature %q at offset %d", v, off))
+		}
+	}
+	ev.Class("signature-vocabulary", int64(8*len(vocab)))
 	sample := ones
 	ev.Sample(map[string]any{"header_hex": hex.EncodeToString(sample[:]), "kind": "all-ones"})
 	hb := base()
